@@ -29,8 +29,15 @@ import re
 import ttconv.style_properties as styles
 
 _HEX_COLOR_RE = re.compile(r"#([0-9a-fA-F]{2})([0-9a-fA-F]{2})([0-9a-fA-F]{2})([0-9a-fA-F]{2})?")
-_DEC_COLOR_RE = re.compile(r"rgb\(\s*(\d+)\s*,\s*(\d+)\s*,\s*(\d+)\s*\)")
-_DEC_COLORA_RE = re.compile(r"rgba\(\s*(\d+),\s*(\d+)\s*,\s*(\d+)\s*,\s*(\d+)\s*\)")
+_DEC_COLOR_RE = re.compile(r"rgb\(\s*(\d+)\s*,\s*(\d+)\s*,\s*(\d+)\s*\)", re.ASCII)
+_DEC_COLORA_RE = re.compile(r"rgba\(\s*(\d+),\s*(\d+)\s*,\s*(\d+)\s*,\s*(\d+)\s*\)", re.ASCII)
+
+def _color_component(digits: str) -> int:
+  '''Returns the value of a decimal color component, which cannot exceed 255'''
+  value = int(digits)
+  if value > 255:
+    raise ValueError("Color component above 255")
+  return value
 
 def parse_color(attr_value: str) -> styles.ColorType:
   '''Parses the TTML \\<color\\> value contained in `attr_value`
@@ -42,7 +49,7 @@ def parse_color(attr_value: str) -> styles.ColorType:
 
     return styles.NamedColors[lower_attr_value].value
 
-  m = _HEX_COLOR_RE.match(attr_value)
+  m = _HEX_COLOR_RE.fullmatch(attr_value)
 
   if m:
 
@@ -55,29 +62,29 @@ def parse_color(attr_value: str) -> styles.ColorType:
       )
     )
 
-  m = _DEC_COLOR_RE.match(attr_value)
+  m = _DEC_COLOR_RE.fullmatch(attr_value)
 
   if m:
 
     return styles.ColorType(
       (
-        int(m.group(1)),
-        int(m.group(2)),
-        int(m.group(3)),
+        _color_component(m.group(1)),
+        _color_component(m.group(2)),
+        _color_component(m.group(3)),
         255
       )
     )
 
-  m = _DEC_COLORA_RE.match(attr_value)
+  m = _DEC_COLORA_RE.fullmatch(attr_value)
 
   if m:
 
     return styles.ColorType(
       (
-        int(m.group(1)),
-        int(m.group(2)),
-        int(m.group(3)),
-        int(m.group(4))
+        _color_component(m.group(1)),
+        _color_component(m.group(2)),
+        _color_component(m.group(3)),
+        _color_component(m.group(4))
       )
     )
 
